@@ -820,3 +820,41 @@ Proof.
   - intros t _. apply bulk_own_refl.
   - intros t Ht. apply bulk_task_enacts; auto.
 Qed.
+
+(* =============================================================== *)
+(* sequences of bulks on one executor / resource manager            *)
+(* =============================================================== *)
+Lemma after_bulk_id : forall cs bulk sts, after_bulk cs sts bulk = sts.
+Proof.
+  intros cs bulk; induction bulk as [|t r IH]; intro sts; simpl; [reflexivity|].
+  rewrite handle_st_state. apply IH.
+Qed.
+
+(* every bulk of the sequence is handled task by task, each task alone *)
+Lemma work_seq_map : forall cs bulks sts,
+  work_seq cs sts bulks = map (map (fun t => snd (handle_st cs sts t))) bulks.
+Proof.
+  intros cs bulks; induction bulks as [|b r IH]; intro sts; simpl; [reflexivity|].
+  rewrite after_bulk_id, work_st_map, IH. reflexivity.
+Qed.
+
+Lemma work_seq_concat : forall cs bulks,
+  concat (work_seq cs (fresh cs) bulks) = work cs (concat bulks).
+Proof.
+  intros. rewrite work_seq_map, work_map. unfold handle.
+  induction bulks as [|b r IH]; simpl; [reflexivity|]. rewrite IH, map_app. reflexivity.
+Qed.
+
+(* find_launcher is free of history: whatever bulks were handled before (and
+   whatever comes after), the launcher and the command of task t are those of
+   t alone on a fresh resource manager *)
+Lemma find_launcher_history_free : forall cs before a t b after,
+  nth_error (concat (work_seq cs (fresh cs) (before ++ (a ++ t :: b) :: after)))
+            (length (concat before ++ a)) = Some (handle cs t).
+Proof.
+  intros. rewrite work_seq_concat, concat_app. simpl.
+  replace (concat before ++ (a ++ t :: b) ++ concat after)
+    with ((concat before ++ a) ++ t :: (b ++ concat after))
+    by (rewrite <- !app_assoc; reflexivity).
+  apply bulk_task_alone.
+Qed.
